@@ -101,10 +101,18 @@ def r1(rep, crate, cfg, fn):
         rep.bad(R, fn.key, "unexpected-condition:" + terms.fmt(a)[:120], fn.loc(),
                 "acceptance depends on a condition that is none of the documented limits: %s (expected atoms: %s)"
                 % (terms.fmt(a), "; ".join(terms.fmt(x) for x in expected.values())), None, cfg)
+    # arithmetic lemma (T: u16 <= 65535, Z: u8 <= 255): ceil(ceil(F/T)/Z) <= K  =>  ceil(F/T) <= K*Z  =>  F <= K*Z*T <= K*255*65535;
+    # K_MAX * 255 * 65535 is exactly the documented transfer-length limit, so on the property's domain the symbols test
+    # implies the length test (a constructor that only keeps the former still refuses every over-long object)
+    lemma = K_MAX * 255 * 65535 <= F_LIMIT
+    present_of = {}
     for name, t in expected.items():
-        present = t in atoms or any(neg_of(a) == t for a in atoms)
+        present_of[name] = t in atoms or any(neg_of(a) == t for a in atoms)
+    for name, t in expected.items():
+        present = present_of[name] or (name == "limit" and lemma and present_of["symbols"])
         rep.check(present, R, fn.key, "limit-present:" + name, fn.loc(),
-                  "the constructor tests %s" % terms.fmt(t), {"atoms_found": [terms.fmt(a) for a in atoms]}, cfg)
+                  "the constructor tests %s%s" % (terms.fmt(t), " (or the symbols-per-block test, which implies it for T <= 65535, Z <= 255)"
+                                                  if name == "limit" else ""), {"atoms_found": [terms.fmt(a) for a in atoms]}, cfg)
     if unknown:
         return
     # truth table over the three expected atoms, domain atoms fixed
@@ -122,6 +130,8 @@ def r1(rep, crate, cfg, fn):
             if na in env:
                 return not env[na]
             return None
+        if lemma and env[expected["symbols"]] and not env[expected["limit"]]:
+            continue        # infeasible by the lemma above
         code = any(all(val(a) == v for a, v in cc) for cc in conjs)
         want = all(vals)
         if code != want:
